@@ -30,6 +30,7 @@ TRUSTED_BASE = ['thread start latency, is_alive races and the 10 ms poll are run
 ASSUMPTIONS = ['"alive" is sampled at quiescent points, not continuously']
 LNAMES = ['La', 'Lb', 'Lc', 'Ld']
 TOK = re.compile(r'TOK_(\d+)_')
+TOKLINE = re.compile(r'TOK_(\d+)_|^( {4,})\.\.\.$', re.M)
 
 
 def generate(rng, tier, rep):
@@ -42,10 +43,14 @@ def generate(rng, tier, rep):
             for rk in ranks:
                 v = rng.choice(['', '-v', '-vv'])
                 cases.append({'kind': 'sched', 'k': k, 'N': N, 'ranks': rk, 'verbosity': v,
-                              'lines': [rng.randint(0, 3) for _ in range(k)], 'dots': rng.random() < 0.5})
+                              'lines': [rng.randint(0, 3) for _ in range(k)], 'dots': rng.random() < 0.5, 'indented': rng.random() < 0.4,
+                              # a slow stdout and children whose output arrives in pieces (real time only widens windows;
+                              # what is printed must not depend on it)
+                              'slow': rng.random() < 0.35})
     for c in cases:
         rep.count('k=%d' % c['k'])
         rep.count('N=%d' % c['N'])
+        rep.count('slow stdout' if c['slow'] else 'prompt stdout')
         rep.count('collector=%s' % ('immediate' if c['N'] == 1 else 'keepalive' if c['verbosity'] == '-vv' else 'deferred'))
     return cases
 
@@ -77,13 +82,22 @@ def run_sched(i, c):
         for _ in range(c['lines'][j]):
             t += 1
             toks.append(t)
-            out += ('  line TOK_%d_ of child %d\n' % (t, j)).encode()
+            if c.get('indented') and t % 2 == 0:
+                # a line of real output that consists of blanks and dots only (an ELLIPSIS line of a doctest report): it is
+                # not a keep-alive mark (those start in column 0); the token number is carried by the indentation
+                out += (' ' * (3 + t) + '...\n').encode()
+            else:
+                out += ('  line TOK_%d_ of child %d\n' % (t, j)).encode()
             if c['dots']:
                 out += b'..\n'
         tokens[j] = toks
         script[LNAMES[j]] = {'barrier': os.path.join(d, 'b%d' % j), 'stdout': out.hex(), 'stderr': b'1 0 0\n'.hex(), 'end': 'exit0'}
+        if c.get('slow'):
+            script[LNAMES[j]]['pause'] = 0.06
     json.dump(script, open(os.path.join(d, 'fake.json'), 'w'))
     spec = {'dir': d, 'args': ['--path', d, '--tests-pattern', '^%s$' % mod] + world['options'], 'script_parts': world['script_parts']}
+    if c.get('slow'):
+        spec['slow_stdout'] = 0.15
     env = fw.impl_env({'VW_WORLD': os.path.join(d, 'world.json'), 'VW_TRACE': os.path.join(d, 'trace.jsonl'),
                        'VW_FAKE': os.path.join(d, 'fake.json')})
     p = subprocess.Popen([fw.PY, os.path.join(fw.HARNESS, 'drive_world.py')], stdin=subprocess.PIPE, stdout=subprocess.PIPE,
@@ -122,7 +136,7 @@ def run_sched(i, c):
     obs = {'hung': hung, 'alive': alive_log, 'release': order, 'tokens': tokens}
     try:
         o = json.loads(out)
-        obs['stdout_tokens'] = [int(x) for x in TOK.findall(o['stdout'])]
+        obs['stdout_tokens'] = [int(m.group(1)) if m.group(1) else len(m.group(2)) - 3 for m in TOKLINE.finditer(o['stdout'])]
         obs['ran'] = o['ran']
         obs['failed'] = o['failed']
         obs['stdout_tail'] = o['stdout'][-1500:]
